@@ -2,7 +2,7 @@
 
    Transcribed from /repo:
      contactql/parser.go     Condition.validate, Condition.resolveValueType, ValueAsNumber,
-                             BoolCombination.validate, Condition.Simplify, BoolCombination.Simplify,
+                             (with its exponent bound), BoolCombination.validate, Condition.Simplify, BoolCombination.Simplify,
                              tokenizeNameValue
      contactql/visitor.go    the `attributes` table
      contactql/evaluator.go  EvaluateQuery, evaluateNode, evaluateBoolCombination, evaluateCondition,
@@ -265,8 +265,20 @@ Definition date_cmp (t : Z) (o : cop) (start : Z) : res :=
   | OpContains => Panic
   end.
 
+(* Condition.ValueAsNumber: decimal.NewFromString, then the exponent must lie within +-maxNumberValueExponent
+   (comparing decimals rescales them with big.Int at a cost of 10^|exponent difference|; the model's Z arithmetic does
+   not show that cost, the bound is what keeps it small) *)
+Definition max_number_value_exponent : Z := 1000.
+
+Definition value_number (v : text) : option dec :=
+  match parse_dec v with
+  | Some d => if ((d_e d <? - max_number_value_exponent) || (max_number_value_exponent <? d_e d))%Z then None else Some d
+  | None => None
+  end.
+
+(* `asNumber, _ := c.ValueAsNumber()`: the zero decimal on error *)
 Definition value_as_number (v : text) : dec :=
-  match parse_dec v with Some d => d | None => dec_zero end.
+  match value_number v with Some d => d | None => dec_zero end.
 
 Definition value_day_start (e : env) (v : text) : Z :=
   match e_day_start e v with Some s => s | None => zero_time end.
@@ -369,7 +381,7 @@ Definition validate_cond (e : env) (r : resolver) (pt : ptype) (key : text) (o :
           else
             let type_check :=
               match vt with
-              | FNumber => match parse_dec v with None => Some EInvalidNumber | Some _ => None end
+              | FNumber => match value_number v with None => Some EInvalidNumber | Some _ => None end
               | FDatetime => match e_day_start e v with None => Some EInvalidDate | Some _ => None end
               | _ => None
               end in
